@@ -449,7 +449,7 @@ MANIFEST = dict(
           "references + owning handles + references in flight; an object is destroyed in exactly the step that takes its counter to 0, never "
           "twice, never while referenced; no step touches the counter of a destroyed object; handle comparison = object identity even with "
           "address reuse; self-assignment and self-move leave the state unchanged.  The model is tied to the code by running the same random "
-          "histories (single-threaded, and 2-4 real threads) through the real classes under ASan/UBSan and TSan and through the compiled model, "
+          "histories (single-threaded, 2-4 real threads, and barrier-synchronised simultaneous first acquisitions of an object at count 1) through the real classes under ASan/UBSan and TSan and through the compiled model, "
           "diffing use counts, destructor counts, handle targets and comparisons after every operation, plus a source-text check that the "
           "counter is a std::atomic initialised to 1 and refInc/refDec are single RMWs."),
     note=("Trusted: Lean kernel; axioms propext/Classical.choice/Quot.sound; the hand-written model is tied to the code only by the "
